@@ -21,6 +21,7 @@ CONSTANTS
   UseBuild = FALSE
   NChanges = {1}
   QuietW2 = FALSE
+  UseFarTtl = FALSE
   UseDiverge = TRUE
   UseAdv = FALSE
 SPECIFICATION Spec
